@@ -247,6 +247,8 @@ def run_spec(spec):
                 else:
                     r = crng.choice(avail)
                 o = ts[r.idx]['outcome']
+                # half of the failing / cancelled path downloads fail before the CRT has created its receive file
+                r.no_partial_file = (spec['seed'] + r.idx) % 2 == 0
                 client.complete(r, 'ok' if o == 'ok' else 'error', datas.get(r.idx, b''))
 
     sth = threading.Thread(target=submit_all, name='vf-crt-submit', daemon=True)
